@@ -605,7 +605,7 @@ class Builder:
                     d['parent'] = (n, p['name'])
                     if p.get('subtypes'):
                         self.add_subtype(p, d)
-            if d['k'] == 'union' and g.p(70 if self.cfg.union_chain_bias else 30):
+            if d['k'] == 'union' and g.p(70 if self.cfg.union_chain_bias else 45 if self.cfg.union_struct_bias else 30):
                 # test_union_semantics: a closed union cannot extend an open one
                 cands = [(n, p) for n, p in self.visible(ns, ('union',))
                          if self.rank[(n, p['name'])] < self.rank[(me_ns, d['name'])]
@@ -613,7 +613,12 @@ class Builder:
                          and (not d['closed'] or not self.idx.is_open(n, p))]
                 if cands:
                     deep = [c for c in cands if c[1].get('parent')]
-                    n, p = g.choice(deep if deep and self.cfg.union_chain_bias and g.p(60) else cands)
+                    # parents that already have a child: sibling unions share what they inherit
+                    shared = [c for c in cands if self.idx.children(c[0], c[1]['name'])]
+                    if shared and (self.cfg.union_chain_bias or self.cfg.union_struct_bias) and g.p(40):
+                        n, p = g.choice(shared)
+                    else:
+                        n, p = g.choice(deep if deep and self.cfg.union_chain_bias and g.p(60) else cands)
                     d['parent'] = (n, p['name'])
         # choose enumerating roots: LR "Struct Polymorphism": root has no parent, lists its
         # subtypes (all of them), subtypes are leaves
